@@ -296,7 +296,7 @@ fn check_feeder(f: &dyn Feeder, input: &[u8], parts: &[Vec<u16>]) -> Result<(Sta
     let name = f.name();
     let (base, base_pending) = f.run(&[input])?;
     let mut cut_inside_item = false;
-    let mut compare = |chunks: &[&[u8]], what: &str| -> Result<(), Fail> {
+    let compare = |chunks: &[&[u8]], what: &str| -> Result<(), Fail> {
         let (toks, pending) = f.run(chunks)?;
         if toks != base || pending != base_pending {
             let lens: Vec<usize> = chunks.iter().map(|c| c.len()).collect();
